@@ -26,8 +26,16 @@ type Scenario struct {
 	Slots   []string   `json:"slots"`            // child slots offered per parent (default a,b,H)
 	Attach  []int      `json:"attach,omitempty"` // base worlds: base heights (relative to base tip, <= 0) where forks may start
 	Probes  bool       `json:"probes"`           // add duplicate / orphan submissions as operations
+	WorkProbe bool     `json:"work_probe,omitempty"` // add a submission with proof-of-work checking switched on
 	MaxTime time.Duration `json:"-"`
-	oracles []func(*checker)
+	oracles []oracle
+}
+
+// oracle is one property's check of a transition: pre runs in the state before the last
+// operation of the history (to capture what "before" looked like), post after it.
+type oracle struct {
+	pre  func(*checker)
+	post func(*checker)
 }
 
 func countOps(hist []hdr.Op, kinds ...string) int {
@@ -54,7 +62,7 @@ func (sc *Scenario) enabled(w *hdr.World, hist []hdr.Op) []hdr.Op {
 	newCount := 0
 	seenLabel := map[string]bool{}
 	for _, o := range hist {
-		if o.K == "sub" && !seenLabel[o.L] {
+		if (o.K == "sub" || o.K == "subw") && !seenLabel[o.L] && !strings.Contains(o.L, "/x/") && !strings.HasSuffix(o.L, "/w") {
 			seenLabel[o.L] = true
 			newCount++
 		}
@@ -101,6 +109,9 @@ func (sc *Scenario) enabled(w *hdr.World, hist []hdr.Op) []hdr.Op {
 		if len(parents) > 0 {
 			p := parents[len(parents)-1]
 			ops = append(ops, hdr.Op{K: "sub", L: p + "/x/a"}) // parent p/x never submitted
+			if sc.WorkProbe {
+				ops = append(ops, hdr.Op{K: "subw", L: p + "/w"}) // proof-of-work checking on
+			}
 		}
 	}
 	if countOps(hist, maintKinds...) < sc.M {
@@ -113,23 +124,37 @@ func (sc *Scenario) enabled(w *hdr.World, hist []hdr.Op) []hdr.Op {
 }
 
 func (sc *Scenario) run(prop string, hist []hdr.Op) mc.Result[hdr.Op] {
-	w, err := hdr.Run(sc.Cfg, hist)
+	n := len(hist)
+	var w *hdr.World
+	var err error
+	if n == 0 {
+		w, err = hdr.Run(sc.Cfg, nil)
+	} else {
+		w, err = hdr.Run(sc.Cfg, hist[:n-1])
+	}
 	if err != nil {
 		return mc.Result[hdr.Op]{Key: "init-error", Violations: []mc.Violation{{Prop: prop,
 			Clause: "init", Fingerprint: "init|" + normalize(err.Error()), Detail: err.Error(), History: hist, Config: sc.Cfg}}}
 	}
+	c := &checker{prop: prop, w: w, hist: hist, sc: sc, pre: map[string]any{}}
 	var st *hdr.Step
-	if len(w.Steps) > 0 {
-		st = &w.Steps[len(w.Steps)-1]
+	if n > 0 {
+		c.op = &hist[n-1]
+		for _, o := range sc.oracles {
+			if o.pre != nil {
+				o.pre(c)
+			}
+		}
+		st = w.Apply(hist[n-1])
+		c.st = st
 	}
-	c := &checker{prop: prop, w: w, st: st, hist: hist}
 	for _, o := range sc.oracles {
-		o(c)
 		if len(c.vs) > 0 {
 			break
 		}
+		o.post(c)
 	}
-	r := mc.Result[hdr.Op]{Violations: c.vs, Checks: c.n}
+	r := mc.Result[hdr.Op]{Violations: c.vs, Checks: c.n, Counters: c.counters}
 	r.Outcomes = outcomes(w, st)
 	if len(c.vs) == 0 {
 		r.Key = w.Key()
